@@ -41,7 +41,14 @@ type cliEv struct {
 	Esc       bool     `json:"esc"`
 	HistDelta int      `json:"histdelta"`
 	HistLast  bool     `json:"histlast"`
-	Note      string   `json:"note,omitempty"`
+	HistCount int      `json:"histcount"` // results_count of the newest history entry (-1: none)
+	// the same search repeated at once with --limit 1
+	Rep          bool   `json:"rep"`
+	RepNRes      int    `json:"repnres"`
+	RepHistLen   int    `json:"rephistlen"`
+	RepHistLast  bool   `json:"rephistlast"`
+	RepHistCount int    `json:"rephistcount"`
+	Note         string `json:"note,omitempty"`
 }
 
 var reANSI = regexp.MustCompile(`\x1b\[[0-9;]*[A-Za-z]`)
@@ -256,33 +263,37 @@ func cliRun(args []string) int {
 			if cq, verr := validation.ValidateQuery(strings.Join(argvQuery(argv), " ")); verr == nil && len(qs) > 0 {
 				ev.HistLast = qs[len(qs)-1] == cq
 			}
+			ev.HistCount = histLastCount(b)
 		}
 		// printed results
-		plain := reANSI.ReplaceAllString(outS, "")
-		var printed []string
 		format := strings.ToLower(sc.Format)
-		switch {
-		case isSearch && format == "json":
-			if items, ok := parseJSONBlock(plain); ok {
-				ev.JSONOK = true
-				for _, it := range items {
-					printed = append(printed, it.Command)
+		parsePrinted := func(outS string) (printed []string, jsonOK bool) {
+			plain := reANSI.ReplaceAllString(outS, "")
+			switch {
+			case isSearch && format == "json":
+				if items, ok := parseJSONBlock(plain); ok {
+					jsonOK = true
+					for _, it := range items {
+						printed = append(printed, it.Command)
+					}
+				} else if strings.Contains(plain, "\n[") || strings.HasPrefix(plain, "[") {
+					printed = append(printed, "unparsable")
 				}
-			} else if strings.Contains(plain, "\n[") || strings.HasPrefix(plain, "[") {
-				ev.JSONOK = false
-				printed = append(printed, "unparsable")
-			}
-		case isSearch && format == "table":
-			if i := strings.Index(plain, "----------"); i >= 0 {
-				for _, m := range reTableRow.FindAllStringSubmatch(plain[i:], -1) {
-					printed = append(printed, strings.TrimRight(m[2], " "))
+			case isSearch && format == "table":
+				if i := strings.Index(plain, "----------"); i >= 0 {
+					for _, m := range reTableRow.FindAllStringSubmatch(plain[i:], -1) {
+						printed = append(printed, strings.TrimRight(m[2], " "))
+					}
+				}
+			case isSearch:
+				for _, m := range reListItem.FindAllStringSubmatch(plain, -1) {
+					printed = append(printed, m[2])
 				}
 			}
-		case isSearch:
-			for _, m := range reListItem.FindAllStringSubmatch(plain, -1) {
-				printed = append(printed, m[2])
-			}
+			return
 		}
+		printed, jok := parsePrinted(outS)
+		ev.JSONOK = jok
 		ev.NRes = len(printed)
 		// oracle: the engine's answer with the options the search command documents
 		if isSearch && sc.DB == "valid" {
@@ -327,6 +338,31 @@ func cliRun(args []string) int {
 				}
 			}
 		}
+		// the same search again at once, asking for a single result: the newest history entry must describe this run
+		if isSearch && ev.HistDelta == 1 && !ev.Crash && tr%2 == 0 {
+			var argv2 []string
+			inserted := false
+			for _, a := range argv {
+				if a == "--" && !inserted {
+					argv2 = append(argv2, "--limit", "1")
+					inserted = true
+				}
+				argv2 = append(argv2, a)
+			}
+			out2, _, err2 := runWtfColor(argv2, sc.Color != "default", env)
+			if err2 == nil {
+				p2, _ := parsePrinted(out2)
+				ev.Rep, ev.RepNRes, ev.RepHistCount = true, len(p2), -1
+				if b, err := os.ReadFile(histFile); err == nil {
+					qs, _ := histQueries(b)
+					ev.RepHistLen = len(qs)
+					if cq, verr := validation.ValidateQuery(strings.Join(argvQuery(argv), " ")); verr == nil && len(qs) > 0 {
+						ev.RepHistLast = qs[len(qs)-1] == cq
+					}
+					ev.RepHistCount = histLastCount(b)
+				}
+			}
+		}
 		w.emit(ev)
 		os.RemoveAll(cliHome)
 	})
@@ -348,4 +384,17 @@ func argvQuery(argv []string) []string {
 // runWtfColor is runWtf without the blanket NO_COLOR (colour switches are part of the scenario)
 func runWtfColor(args []string, _ bool, extraEnv []string) (string, int, error) {
 	return runWtfEnv(args, extraEnv)
+}
+
+// histLastCount: results_count of the newest entry of a history file (-1 when there is none)
+func histLastCount(b []byte) int {
+	var h struct {
+		Entries []struct {
+			ResultsCount int `json:"results_count"`
+		} `json:"entries"`
+	}
+	if err := json.Unmarshal(b, &h); err != nil || len(h.Entries) == 0 {
+		return -1
+	}
+	return h.Entries[len(h.Entries)-1].ResultsCount
 }
